@@ -290,6 +290,12 @@ def usable_columns(schema, ds, table):
 
 
 def source_values(schema, ds, table, col):
+    vals = _source_values(schema, ds, table, col)
+    # a request line cannot carry line breaks
+    return [v for v in vals if not (isinstance(v, str) and ("\n" in v or "\r" in v))]
+
+
+def _source_values(schema, ds, table, col):
     if col["storage"] == "LocalStore":
         base = col["name"][:-3] if col["name"].endswith("_lc") else col["name"]
         return dataset_values(ds, table, base)
